@@ -12,7 +12,7 @@ Separate Extraction
   ConnSpec.c07_pubrel_answered ConnSpec.prompt_acks
   ConnSpec.c08_store_before_send ConnSpec.c08_kept_until_acked ConnSpec.c08_resend ConnSpec.c08_no_second_new
   ConnSpec.c16_bound ConnSpec.c12_will
-  ConnSpec2.c15_in_order ConnSpec2.c15_release_intact ConnSpec2.c15_resend_order ConnSpec2.c15_dequeue_order ConnSpec5.c14_lifecycle2 ConnSpec5.c06_forward_intact
+  ConnSpec2.c15_in_order ConnSpec2.c15_release_intact ConnSpec2.c15_resend_order ConnSpec2.c15_dequeue_order ConnSpec5.c14_lifecycle2 ConnSpec5.c06_forward_intact ConnSpec5.c15_resend_first
   ConnSpec3.c08_popped_is_saved ConnSpec3.c08_pubrel_after_store ConnSpec3.c20_tokens
   ConnProofsCDefs.c16_slots_not_lost2
   ConnProofsCDefs.c16_resume_fits ConnProofsCDefs.c16_window_const.
